@@ -153,9 +153,10 @@ class NFDomain(Domain):
         if fname == ".astype" and len(args) == 2:
             t = args[1]
             tt = t if isinstance(t, str) else (t.path if isinstance(t, Ref) else "")
-            if tt in ("int", "i", "i4", "i8", "int64", "np.int64", "int32"):
+            tl = tt.lower().replace("np.", "").replace("numpy.", "")
+            if tl in ("i", "i2", "i4", "i8", "l", "q") or tl.startswith(("int", "uint", "long")) or tl == "intc" or tl == "intp":
                 return self._int(n(args[0]))
-            if tt in ("float", "f4", "f8", "np.float64", "float64", "float32"):
+            if tl in ("f", "d", "f4", "f8") or tl.startswith(("float", "double", "single")):
                 return args[0]
             return NF.atom(f"astype({n(args[0]).canon()};{tt})")
         if fname == "int" and args:
